@@ -352,8 +352,8 @@ impl WireOracle for SctpWireOracle {
         }
         let quiet_from = ws.quiet_from;
         // (the transport stamps a chunk when it queues it for sending, a little before the monitor sees the datagram, and its
-        // timer has its own granularity: a T3 can fire when the monitor's clock says the chunk is up to 10 ms short of rto_min)
-        let rto_min = (ws.rto_min_ms - 10.0).max(1.0);
+        // timer has its own granularity: a T3 can fire when the monitor's clock says the chunk is up to 2 ms short of rto_min)
+        let rto_min = (ws.rto_min_ms - 2.0).max(1.0);
         let pr_streams = ws.pr_streams.clone();
         let lat = if from == "A" { ws.latency_ms[0] } else { ws.latency_ms[1] };
         let hw = ws.hosts.entry(from.to_string()).or_default();
@@ -468,7 +468,7 @@ impl WireOracle for SctpWireOracle {
                 let cum = u32::from_be_bytes([c.value[0], c.value[1], c.value[2], c.value[3]]);
                 let arwnd = u32::from_be_bytes([c.value[4], c.value[5], c.value[6], c.value[7]]);
                 let ngap = u16::from_be_bytes([c.value[8], c.value[9]]) as usize;
-                let ws_rto_min = (ws.rto_min_ms - 10.0).max(1.0);
+                let ws_rto_min = (ws.rto_min_ms - 2.0).max(1.0);
                 let hw = ws.hosts.entry(to.to_string()).or_default();
                 // ignore SACKs that do not refer to this host's TSN space at all (stale association)
                 let plausible = match (hw.init_tsn, hw.hi) {
